@@ -613,6 +613,10 @@ def gen_case(ctx):
         a = gen_corr(rng, N=rng.choice([2, 3, 3, 4]) if m == 'matrix_symmetric' else rng.choice([2, 3]))
     elif m in ('symmetric', 'anti_symmetric', 'T_symmetry', 'hankel', 'repr'):
         a = gen_corr(rng, N=1, T=rng.choice([2, 4, 6, 8, 10, 12, 16, 5, 7]))
+        if m in ('symmetric', 'anti_symmetric') and rng.random() < 0.3 and len(a['vals']) > 2:
+            a['vals'][0] = None      # timeslice 0 undefined: it is copied, nothing has to be analysed there
+            if all(v is None for v in a['vals']):
+                a['vals'][1] = 0.7
     else:
         a = gen_corr(rng)
     T, N = len(a['vals']), a['N']
